@@ -159,7 +159,7 @@ Definition desc_wf (d : desc) : Prop := Forall sec_has_mid (d_secs d).
 Definition odesc_wf (o : option desc) : Prop := match o with Some d => desc_wf d | None => True end.
 
 Record Inv (p : pc) : Prop := {
-  inv_pend : p_sig p = HaveRemoteOffer -> p_pend_remote p <> None;
+  inv_pend : p_sig p = HaveRemoteOffer \/ p_sig p = HaveLocalPranswer -> p_pend_remote p <> None;
   inv_cur : p_cur_local p <> None -> p_cur_remote p <> None;
   inv_wf_cur : odesc_wf (p_cur_local p);
   inv_wf_pend : odesc_wf (p_pend_local p);
@@ -178,7 +178,7 @@ Proof.
 Qed.
 
 Lemma Inv_init : forall a, Inv (pc_init a).
-Proof. intro a. constructor; cbn; try congruence; auto; constructor. Qed.
+Proof. intro a. constructor; cbn; try congruence; auto; try constructor. intros [H|H]; discriminate. Qed.
 
 Definition ms_ne (ms : list msec) : Prop :=
   Forall (fun m => match m with MSData id => id <> "" | MSMedia id _ => id <> "" end) ms.
@@ -269,14 +269,19 @@ Proof.
   intros p p' out fx H I. unfold create_answer in H.
   destruct (remote_for_matching p) as [r|]; [|inversion H; subst; auto].
   destruct (p_closed p); [inversion H; subst; auto|].
-  destruct (negb (sig_eqb (p_sig p) HaveRemoteOffer)); [inversion H; subst; auto|].
+  destruct (negb (sig_eqb (p_sig p) HaveRemoteOffer) && negb (sig_eqb (p_sig p) HaveLocalPranswer));
+    [inversion H; subst; auto|].
   destruct (matched_sections p (d_secs r) (p_tcvs p) false) as [[ms unused]|e|] eqn:M;
     try (inversion H; subst; auto; fail).
+  2:{ inversion H; subst. eapply Inv_ext; [|exact I]. reflexivity. }
   inversion H; subst. destruct I. constructor; cbn; auto.
   apply render_wf. unfold matched_sections in M.
   destruct (matched_loop (d_secs r) (indexed (p_tcvs p)) [] false) as [[[acc locals] ha]|e|] eqn:L; try discriminate.
   inversion M; subst. eapply matched_loop_ne; eauto. constructor.
 Qed.
+
+Lemma sig_eqb_eq : forall a b, sig_eqb a b = true -> a = b.
+Proof. destruct a, b; cbn; intro H; try discriminate; reflexivity. Qed.
 
 Lemma set_local_inv : forall p ty p' out fx, set_local p ty = (p', out, fx) -> Inv p -> Inv p'.
 Proof.
@@ -286,11 +291,29 @@ Proof.
   - destruct (p_last_offer p) as [d|] eqn:Lo; [|inversion H; subst; auto].
     destruct (sig_eqb (p_sig p) Stable); inversion H; subst; auto.
     destruct I. rewrite Lo in inv_wf_lo0. constructor; cbn; auto; try discriminate.
+    intros [X|X]; discriminate.
   - destruct (p_last_answer p) as [d|] eqn:La; [|inversion H; subst; auto].
-    destruct (sig_eqb (p_sig p) HaveRemoteOffer) eqn:Es; [|inversion H; subst; auto].
-    assert (Hs : p_sig p = HaveRemoteOffer) by (destruct (p_sig p); try discriminate; auto).
+    destruct (sig_eqb (p_sig p) HaveRemoteOffer || sig_eqb (p_sig p) HaveLocalPranswer) eqn:Es;
+      [|inversion H; subst; auto].
+    assert (Hs : p_sig p = HaveRemoteOffer \/ p_sig p = HaveLocalPranswer).
+    { apply orb_true_iff in Es. destruct Es as [Es|Es]; apply sig_eqb_eq in Es; auto. }
     destruct (match p_pend_remote p with Some _ => start_rtp_senders _ | None => _ end) as [l2 ok].
     inversion H; subst. destruct I. rewrite La in inv_wf_la0. constructor; cbn; auto; try discriminate.
+    intros [X|X]; discriminate.
+  - destruct (p_last_answer p) as [d|] eqn:La; [|inversion H; subst; auto].
+    destruct (sig_eqb (p_sig p) HaveRemoteOffer) eqn:Es; [|inversion H; subst; auto].
+    apply sig_eqb_eq in Es.
+    inversion H; subst. destruct I. rewrite La in inv_wf_la0. constructor; cbn; auto.
+Qed.
+
+Lemma set_remote_nonanswer_inv : forall p d from to l0 p' out fx,
+  set_remote_nonanswer p d from to l0 = (p', out, fx) ->
+  to <> HaveLocalPranswer -> Inv p -> Inv p'.
+Proof.
+  intros p d from to l0 p' out fx H Hto I. unfold set_remote_nonanswer in H.
+  destruct (sig_eqb (p_sig p) from); [|inversion H; subst; auto].
+  destruct (remote_offer_loop (d_secs d) _ _ 0) as [[l1 added] ok].
+  inversion H; subst. destruct I. constructor; cbn; auto; discriminate.
 Qed.
 
 Lemma set_remote_inv : forall p ty secs e p' out fx,
@@ -300,11 +323,13 @@ Proof.
   destruct (p_closed p); [inversion H; subst; auto|].
   destruct ty.
   - destruct (sig_eqb (p_sig p) Stable); [|inversion H; subst; auto].
-    destruct (remote_offer_loop secs _ _ 0) as [[l1 added] ok].
-    inversion H; subst. destruct I. constructor; cbn; auto; discriminate.
-  - destruct (sig_eqb (p_sig p) HaveLocalOffer); [|inversion H; subst; auto].
+    eapply set_remote_nonanswer_inv; eauto. discriminate.
+  - destruct (sig_eqb (p_sig p) HaveLocalOffer || sig_eqb (p_sig p) HaveRemotePranswer); [|inversion H; subst; auto].
     match type of H with context [start_rtp_senders ?x] => destruct (start_rtp_senders x) as [la oka] end.
-    destruct secs; cbn in H; inversion H; subst; destruct I; constructor; cbn; auto; discriminate.
+    destruct secs; cbn in H; inversion H; subst; destruct I; constructor; cbn; auto; try discriminate;
+      intros [X|X]; discriminate.
+  - destruct (sig_eqb (p_sig p) HaveLocalOffer); [|inversion H; subst; auto].
+    eapply set_remote_nonanswer_inv; eauto. discriminate.
 Qed.
 
 Lemma step_inv : forall p o p' out fx, step p o = (p', out, fx) -> Inv p -> Inv p'.
@@ -341,7 +366,7 @@ Proof.
   - eapply set_local_inv; eauto.
   - eapply set_remote_inv; eauto.
   - unfold close_pc in H. destruct (p_closed p); inversion H; subst; auto.
-    destruct I. constructor; cbn; auto; discriminate.
+    destruct I. constructor; cbn; auto; try discriminate. intros [X|X]; discriminate.
 Qed.
 
 (* ---------- reachable states ---------- *)
@@ -393,10 +418,12 @@ Proof.
     + destruct (get_by_mid (t_mid t) (d_secs r)); [|eauto].
       destruct (_ && _); eauto.
     + destruct (odir_eqb _ _); eauto.
+    + eauto.
   - destruct (d_type ld).
     + destruct (get_by_mid (t_mid t) (d_secs r)); [|eauto].
       destruct (_ && _); eauto.
     + destruct (odir_eqb _ _); eauto.
+    + eauto.
 Qed.
 
 Lemma check_tcvs_ok : forall ld r l, exists b, check_tcvs ld (Some r) l = Ok b.
@@ -691,6 +718,116 @@ Lemma nofire_witness :
   /\ snd (nstep s (OAddTrack Video (w_enc 2)) []) = [].
 Proof. vm_compute. repeat split; congruence. Qed.
 
+(* ---------- what each call reports to the flag machinery ---------- *)
+
+Lemma create_offer_fx : forall p p' out fx, create_offer p = (p', out, fx) -> fx = fx_none.
+Proof.
+  intros p p' out fx H. unfold create_offer in H.
+  destruct (p_closed p); [inversion H; auto|].
+  destruct (assign_mids _ _) as [g l].
+  match type of H with (match ?b with _ => _ end) = _ => destruct b as [ms|e|] end.
+  - destruct (local_changed l (map render_msec ms)); inversion H; auto.
+  - inversion H; auto.
+  - inversion H; auto.
+Qed.
+
+Lemma create_answer_fx : forall p p' out fx, create_answer p = (p', out, fx) -> fx = fx_none.
+Proof.
+  intros p p' out fx H. unfold create_answer in H.
+  destruct (remote_for_matching p) as [r|]; [|inversion H; auto].
+  destruct (p_closed p); [inversion H; auto|].
+  destruct (_ && _); [inversion H; auto|].
+  destruct (matched_sections p (d_secs r) (p_tcvs p) false) as [[ms unused]|e|]; inversion H; auto.
+Qed.
+
+Lemma set_local_fx : forall p ty p' out fx, set_local p ty = (p', out, fx) ->
+  fx = fx_none \/ (fx = {| fx_triggers := 1; fx_to_stable := true |} /\ p_sig p' = Stable /\ p_closed p' = false).
+Proof.
+  intros p ty p' out fx H. unfold set_local in H.
+  destruct (p_closed p) eqn:Ec; [inversion H; auto|].
+  destruct ty.
+  - destruct (p_last_offer p); [|inversion H; auto].
+    destruct (sig_eqb (p_sig p) Stable); inversion H; auto.
+  - destruct (p_last_answer p); [|inversion H; auto].
+    destruct (_ || _); [|inversion H; auto].
+    destruct (match p_pend_remote p with Some _ => start_rtp_senders _ | None => _ end).
+    inversion H; subst. right. cbn. auto.
+  - destruct (p_last_answer p); [|inversion H; auto].
+    destruct (sig_eqb (p_sig p) HaveRemoteOffer); inversion H; auto.
+Qed.
+
+Lemma set_remote_nonanswer_fx : forall p d from to l0 p' out fx,
+  set_remote_nonanswer p d from to l0 = (p', out, fx) ->
+  fx_to_stable fx = false /\ (p_sig p' = to \/ (p' = p /\ fx = fx_none)).
+Proof.
+  intros p d from to l0 p' out fx H. unfold set_remote_nonanswer in H.
+  destruct (sig_eqb (p_sig p) from); [|inversion H; auto].
+  destruct (remote_offer_loop (d_secs d) _ _ 0) as [[l1 added] ok]. inversion H; subst. cbn. auto.
+Qed.
+
+Lemma set_remote_fx : forall p ty secs e p' out fx, set_remote p ty secs e = (p', out, fx) ->
+  (fx_to_stable fx = false /\ (p_sig p' <> Stable \/ (p' = p /\ fx = fx_none)))
+  \/ (fx = {| fx_triggers := 1; fx_to_stable := true |} /\ p_sig p' = Stable /\ p_closed p' = false).
+Proof.
+  intros p ty secs e p' out fx H. unfold set_remote in H.
+  destruct (p_closed p) eqn:Ec; [inversion H; auto|].
+  destruct ty.
+  - destruct (sig_eqb (p_sig p) Stable); [|inversion H; auto].
+    apply set_remote_nonanswer_fx in H. destruct H as [H1 [H2|H2]]; left; split; auto.
+    left. rewrite H2. discriminate.
+  - destruct (_ || _); [|inversion H; auto].
+    match type of H with context [start_rtp_senders ?x] => destruct (start_rtp_senders x) end.
+    right. destruct secs; cbn in H; inversion H; subst; cbn; auto.
+  - destruct (sig_eqb (p_sig p) HaveLocalOffer); [|inversion H; auto].
+    apply set_remote_nonanswer_fx in H. destruct H as [H1 [H2|H2]]; left; split; auto.
+    left. rewrite H2. discriminate.
+Qed.
+
+(* the local media calls and Close never report a transition into stable *)
+Lemma step_other_fx : forall p o p' out fx,
+  step p o = (p', out, fx) ->
+  match o with OCreateOffer | OCreateAnswer | OSetLocal _ | OSetRemote _ _ _ => True
+             | _ => fx = fx_none \/ fx = fx_one end.
+Proof.
+  intros p o p' out fx H. destruct o; cbn [step] in H; auto.
+  - unfold add_track in H. destruct (p_closed p); [inversion H; auto|].
+    destruct (add_track_reuse (p_tcvs p) k i); inversion H; auto.
+  - unfold add_tcv_kind in H. destruct (p_closed p); [inversion H; auto|].
+    destruct d as [[| | |]|]; inversion H; auto.
+  - unfold add_tcv_track in H. destruct (p_closed p); [inversion H; auto|].
+    destruct d as [[| | |]|]; inversion H; auto.
+  - unfold add_encoding in H. destruct (nth_error (p_tcvs p) ti) as [t|]; [|inversion H; auto].
+    destruct (t_sender t) as [sn|]; [|inversion H; auto].
+    repeat match type of H with
+           | (if ?c then _ else _) = _ => destruct c; [inversion H; auto; fail|]
+           | (match ?c with Some _ => _ | None => _ end) = _ => destruct c; [|inversion H; auto; fail]
+           end.
+    inversion H; auto.
+  - unfold remove_track in H. destruct (nth_error (p_tcvs p) ti) as [t|]; [|inversion H; auto].
+    destruct (t_sender t) as [sn|]; [|inversion H; auto].
+    destruct (p_closed p); [inversion H; auto|].
+    destruct (sending_dir false (t_dir t)); inversion H; auto.
+  - unfold replace_track in H. destruct (nth_error (p_tcvs p) ti) as [t0|]; [|inversion H; auto].
+    destruct (t_sender t0) as [sn|]; [|inversion H; auto].
+    destruct t as [tr|].
+    + destruct (negb (kind_eqb k (t_kind t0))); [inversion H; auto|].
+      destruct (Nat.ltb 1 (List.length (sn_encs sn))); inversion H; auto.
+    + inversion H; auto.
+  - unfold create_data_channel in H. destruct (p_closed p); inversion H; auto.
+  - unfold close_pc in H. destruct (p_closed p); inversion H; auto.
+Qed.
+
+Lemma step_to_stable_triggers : forall p o p' out fx,
+  step p o = (p', out, fx) -> fx_to_stable fx = true -> fx_triggers fx = 1.
+Proof.
+  intros p o p' out fx H Hst. pose proof (step_other_fx _ _ _ _ _ H) as Ho.
+  destruct o; try (destruct Ho as [->| ->]; discriminate); cbn [step] in H.
+  - apply create_offer_fx in H. subst. discriminate.
+  - apply create_answer_fx in H. subst. discriminate.
+  - apply set_local_fx in H. destruct H as [->|[-> _]]; [discriminate|reflexivity].
+  - apply set_remote_fx in H. destruct H as [[H _]|[-> _]]; [congruence|reflexivity].
+Qed.
+
 (* ---------- a change made during an exchange: the re-check on reaching stable ---------- *)
 
 Lemma stable_transition_rechecks : forall s o sched s' out fs,
@@ -705,42 +842,7 @@ Proof.
   unfold nstep in H. destruct (step (n_pc s) o) as [[p' out'] fx] eqn:E. cbn in Hst, Hp. subst p'.
   rewrite Hst, drain_spec in H.
   assert (Htrig : fx_triggers fx <> 0).
-  { (* only setDescription reports to_stable, always with one trigger *)
-    destruct o; cbn [step] in E;
-      try (unfold add_track, add_tcv_kind, add_tcv_track, add_encoding, remove_track, replace_track,
-                  create_data_channel, close_pc in E;
-           repeat match type of E with
-                  | (if ?c then _ else _) = _ => destruct c
-                  | (match ?c with _ => _ end) = _ => destruct c
-                  end; inversion E; subst; discriminate).
-    - unfold create_offer in E. destruct (p_closed (n_pc s)); [inversion E; subst; discriminate|].
-      destruct (assign_mids _ _) as [g l].
-      repeat match type of E with
-             | (if ?c then _ else _) = _ => destruct c
-             | (match ?c with _ => _ end) = _ => destruct c
-             end; inversion E; subst; discriminate.
-    - unfold create_answer in E.
-      repeat match type of E with
-             | (if ?c then _ else _) = _ => destruct c
-             | (match ?c with _ => _ end) = _ => destruct c
-             end; inversion E; subst; discriminate.
-    - unfold set_local in E. destruct (p_closed (n_pc s)); [inversion E; subst; discriminate|].
-      destruct ty.
-      + repeat match type of E with
-               | (if ?c then _ else _) = _ => destruct c
-               | (match ?c with _ => _ end) = _ => destruct c
-               end; inversion E; subst; discriminate.
-      + destruct (p_last_answer (n_pc s)); [|inversion E; subst; discriminate].
-        destruct (sig_eqb (p_sig (n_pc s)) HaveRemoteOffer); [|inversion E; subst; discriminate].
-        destruct (match p_pend_remote (n_pc s) with Some _ => start_rtp_senders _ | None => _ end).
-        inversion E; subst. cbn. discriminate.
-    - unfold set_remote in E. destruct (p_closed (n_pc s)); [inversion E; subst; discriminate|].
-      destruct ty.
-      + destruct (sig_eqb (p_sig (n_pc s)) Stable); [|inversion E; subst; discriminate].
-        destruct (remote_offer_loop secs _ _ 0) as [[l1 added] ok]. inversion E; subst. discriminate.
-      + destruct (sig_eqb (p_sig (n_pc s)) HaveLocalOffer); [|inversion E; subst; discriminate].
-        match type of E with context [start_rtp_senders ?x] => destruct (start_rtp_senders x) end.
-        destruct secs; cbn in E; inversion E; subst; cbn; discriminate. }
+  { rewrite (step_to_stable_triggers _ _ _ _ _ E Hst). discriminate. }
   destruct (fx_triggers fx); [congruence|].
   unfold op1, nn_op in H. cbn [n_pc n_flag n_panicked] in H.
   rewrite Hc, Hs in H. cbn in H.
